@@ -1889,7 +1889,9 @@ class Compiler:
                     "Name disallowed by compiler.", node.source
                 )
 
-        stmts = list(map(self._visitor, stmts))
+        # (a definition is followed by the assignment that publishes it)
+        stmts = ast.Module(stmts, [])
+        stmts = self._visitor(stmts).body
         stmts.insert(0, TokenRef(node.source))
         return stmts
 
